@@ -206,6 +206,8 @@ class C18(Spec):
         names = ["meter", "centimeter", "foot", "inch"]
         j = [dict(kind="triple", units=list(t)) for t in itertools.product(names, repeat=3)]
         chains = [[3], [3, 0.5], [3, 0.5, 7.25], [2.54, 12, 3, 1760]]
+        if tier != "quick":
+            chains += [[0.001, 1000, 0.3048, 12, 72], [2, 2, 2, 2, 2, 2], [1e-9, 1e9], [1 / 3, 3, 7, 1 / 7], [1852, 1 / 1852, 3.2808]]
         j += [dict(kind="chain", factors=f) for f in chains]
         j += [dict(kind="sonar", sensor=s, unit=n) for s in ("pulse", "analog") for n in names]
         j += [dict(kind="sonar2", unit=n) for n in names]
